@@ -58,13 +58,13 @@ func gen(t *rapid.T) Case {
 				op.Tags[pbt.PlainString().Draw(t, "k2")] = pbt.PlainString().Draw(t, "v2")
 			}
 		case "counter":
-			op.Name = pbt.S(fmt.Sprintf("m%d", rapid.IntRange(0, 2).Draw(t, "n")))
+			op.Name = pbt.S(rapid.SampledFrom([]string{"m0", "m1", "m2", ""}).Draw(t, "n"))
 			op.I = pbt.AnyInt64().Draw(t, "i")
 		case "gauge":
-			op.Name = pbt.S(fmt.Sprintf("m%d", rapid.IntRange(0, 2).Draw(t, "n")))
+			op.Name = pbt.S(rapid.SampledFrom([]string{"m0", "m1", "m2", ""}).Draw(t, "n"))
 			op.F = pbt.AnyFloat().Draw(t, "f")
 		case "timer":
-			op.Name = pbt.S(fmt.Sprintf("m%d", rapid.IntRange(0, 2).Draw(t, "n")))
+			op.Name = pbt.S(rapid.SampledFrom([]string{"m0", "m1", "m2", ""}).Draw(t, "n"))
 			op.I = pbt.AnyInt64().Draw(t, "i")
 		case "vhist":
 			op.Spec = rapid.IntRange(0, len(vspecs)-1).Draw(t, "spec")
@@ -148,16 +148,26 @@ func sortedD(m map[time.Duration]int64) string {
 // view reads a snapshot through its accessors into a sorted list of strings.
 func view(s tally.Snapshot) []string {
 	var out []string
-	for _, c := range s.Counters() {
+	// every entry must be filed under the public key of its own full name and tags
+	keyed := func(kind, key, name string, tags map[string]string) {
+		if want := tally.KeyForPrefixedStringMap(name, tags); key != want {
+			out = append(out, fmt.Sprintf("MISKEYED %s %q %v: filed under %q, its key is %q", kind, name, tags, key, want))
+		}
+	}
+	for k, c := range s.Counters() {
+		keyed("counter", k, c.Name(), c.Tags())
 		out = append(out, (&entry{kind: "counter", name: c.Name(), tags: c.Tags(), count: c.Value()}).String())
 	}
-	for _, g := range s.Gauges() {
+	for k, g := range s.Gauges() {
+		keyed("gauge", k, g.Name(), g.Tags())
 		out = append(out, (&entry{kind: "gauge", name: g.Name(), tags: g.Tags(), gauge: math.Float64bits(g.Value())}).String())
 	}
-	for _, t := range s.Timers() {
+	for k, t := range s.Timers() {
+		keyed("timer", k, t.Name(), t.Tags())
 		out = append(out, (&entry{kind: "timer", name: t.Name(), tags: t.Tags(), timers: t.Values()}).String())
 	}
-	for _, h := range s.Histograms() {
+	for k, h := range s.Histograms() {
+		keyed("histogram", k, h.Name(), h.Tags())
 		out = append(out, (&entry{kind: "histogram", name: h.Name(), tags: h.Tags(), vh: h.Values(), dh: h.Durations()}).String())
 	}
 	sort.Strings(out)
@@ -424,7 +434,7 @@ func run(c Case) (pbt.Outcome, error) {
 func TestC11(t *testing.T) {
 	pbt.Main(t, pbt.Prop[Case]{
 		ID: "C11", Name: "snapshot",
-		Rule: "rapid-generated histories (1..30 ops) on a test scope (shard count 1/2/16): derive up to 6 scopes by SubScope/Tagged over a delimiter-free alphabet, record on counters (int64 extremes), gauges (hostile float bits), timers, value and duration histograms (fixed specs incl. unsorted, empty and groups of different specs that collide in the internal bucket cache, also across kinds), take snapshots at arbitrary points, mutate a held snapshot through its accessors (tags, timer slices, histogram maps, deleting entries), close subscopes and keep recording on them. Oracle: every snapshot read through Name()/Tags()/Value*() equals the reference tally as a set of entries; a held snapshot re-read after further recording equals its own earlier view; mutation of a snapshot never shows in a later one; closed test scopes stay visible; children of closed scopes are inert. Non-trivial: >=2 scopes with different tag sets and recording after a snapshot. Distinct: FNV-64 of the case JSON.",
+		Rule: "rapid-generated histories (1..30 ops) on a test scope (shard count 1/2/16): derive up to 6 scopes by SubScope/Tagged over a delimiter-free alphabet, record on counters (int64 extremes), gauges (hostile float bits), timers, value and duration histograms (fixed specs incl. unsorted, empty and groups of different specs that collide in the internal bucket cache, also across kinds), take snapshots at arbitrary points, mutate a held snapshot through its accessors (tags, timer slices, histogram maps, deleting entries), close subscopes and keep recording on them. Oracle: every snapshot read through Name()/Tags()/Value*() equals the reference tally as a set of entries, and every entry is filed under KeyForPrefixedStringMap(its full name, its tags) (metric names include the empty name); a held snapshot re-read after further recording equals its own earlier view; mutation of a snapshot never shows in a later one; closed test scopes stay visible; children of closed scopes are inert. Non-trivial: >=2 scopes with different tag sets and recording after a snapshot. Distinct: FNV-64 of the case JSON.",
 		Gen:  gen, Run: run,
 	})
 }
